@@ -259,7 +259,29 @@ def _r1(run, classes):
                             or any(a[1] == 'true' and (f + '.x != 0') in a[0] for a in ff)):
                         guard_ok = False
             ok = same and mags and comp and guard_ok
-    if ok:
+    # the zero-field fallback (in-plane components dropped) applies only where *both* in-plane field components vanish
+    fvar_ = [norm(s_.targets[0]) for s_ in ast.walk(fn) if isinstance(s_, ast.Assign) and 'self._field.evaluate' in norm(s_.value)]
+    wide = None
+    if fvar_:
+        fx, fz = fvar_[0] + '.x', fvar_[0] + '.z'
+        for t_ in [n_.test for n_ in ast.walk(fn) if isinstance(n_, (ast.If, ast.IfExp))]:
+            cmps = [c_ for c_ in ast.walk(t_) if isinstance(c_, ast.Compare) and len(c_.ops) == 1 and norm(c_.left) in (fx, fz)
+                    and norm(c_.comparators[0]) in ('0', '0.0')]
+            if not cmps:
+                continue
+            kinds = {type(c_.ops[0]) for c_ in cmps}
+            comps_ = {norm(c_.left) for c_ in cmps}
+            if isinstance(t_, ast.BoolOp) and comps_ == {fx, fz}:
+                if (isinstance(t_.op, ast.Or) and kinds == {ast.Eq}) or (isinstance(t_.op, ast.And) and kinds == {ast.NotEq}):
+                    wide = t_
+            elif comps_ != {fx, fz} and kinds <= {ast.Eq, ast.NotEq}:
+                wide = t_
+    if wide is not None:
+        run.fail('C12-R1', K + 'FluxCoordToCartesian|evaluate|zero-field-test', ci.mod.relpath, wide.lineno,
+                 'FluxCoordToCartesian.evaluate decides on (%s) whether the poloidal and normal components are dropped: the in-plane field is '
+                 'the zero vector only when both of its components vanish; where just one of them is zero (a purely radial or purely vertical '
+                 'field) the velocity loses its poloidal and normal parts' % norm(wide))
+    elif ok:
         run.ok('C12-R1', 'FluxCoordToCartesian', 'same directions as the basis classes, set to the prescribed magnitudes, summed componentwise')
     elif not recog:
         run.undecided('C12-R1', 'FluxCoordToCartesian', 'vector construction not recognised')
